@@ -173,6 +173,25 @@ fn parse_ignore_comment<T: DirectiveKind>(
   None
 }
 
+#[cfg(feature = "verif_hooks")]
+pub(crate) fn parse_ignore_comment_for_verif(
+  word: &str,
+  text: &str,
+  is_line: bool,
+) -> Option<Vec<String>> {
+  let comment = Comment {
+    kind: if is_line {
+      CommentKind::Line
+    } else {
+      CommentKind::Block
+    },
+    span: deno_ast::swc::common::DUMMY_SP,
+    text: text.into(),
+  };
+  parse_ignore_comment::<Line>(word, &comment)
+    .map(|d| d.codes().keys().cloned().collect())
+}
+
 #[cfg(test)]
 mod tests {
   use super::*;
